@@ -268,12 +268,54 @@ def near_collisions():
     return P
 
 
+IDENTITY_ATOMS = ["1", "0", "None", "True", "'x'", "''", "2.5", "(1, 2)"]
+IDENTITY_TEMPLATES = [   # (with the recurring object, with that occurrence removed)
+    ("{'a': a, 'b': [a]}", "{'a': a, 'b': []}"),
+    ("{'a': a, 'b': [a, 2]}", "{'a': a, 'b': [2]}"),
+    ("{'a': a, 'b': {'c': a}}", "{'a': a, 'b': {}}"),
+    ("{'a': a, 'b': (a, 'y')}", "{'a': a, 'b': ('y',)}"),
+    ("{'a': a, 'b': set([a, 'y'])}", "{'a': a, 'b': set(['y'])}"),
+    ("{'a': a, 'b': [[a]]}", "{'a': a, 'b': [[]]}"),
+    ("[{'a': a, 'b': [a]}]", "[{'a': a, 'b': []}]"),
+    ("{'b': [a, 'y'], 'a': a}", "{'b': ['y'], 'a': a}"),
+    ("{'a': a, 'b': a, 'c': [a, a, 3]}", "{'a': a, 'b': a, 'c': [3]}"),
+    ("{'a': [a], 'b': {'c': [a]}}", "{'a': [a], 'b': {'c': []}}"),
+]
+
+
+def identity_shapes():
+    """dicts one of whose direct values re-appears BY IDENTITY inside a sibling container value (CPython shares small
+    ints, None, bools, interned strs; floats / tuples / containers are shared explicitly), each next to the value in
+    which that occurrence is removed; lists and dicts holding one container object at several positions"""
+    out = []
+    for a in IDENTITY_ATOMS:
+        for t1, t2 in IDENTITY_TEMPLATES:
+            out.append(from_repr("(lambda a: %s)(%s)" % (t1, a)))
+            out.append(from_repr("(lambda a: %s)(%s)" % (t2, a)))
+    for s_ in ["['payload']", "{'p': 1}", "set([1, 2])"]:
+        for t1, t2 in [("{'a': s, 'b': [[s]]}", "{'a': s, 'b': [[]]}"), ("{'a': s, 'b': s}", "{'a': s}"),
+                       ("[s, {'k': s}]", "[s, {}]"), ("{'a': s, 'b': {'c': s}}", "{'a': s, 'b': {}}")]:
+            out.append(from_repr("(lambda s: %s)(%s)" % (t1, s_)))
+            out.append(from_repr("(lambda s: %s)(%s)" % (t2, s_)))
+    seen, res = set(), []
+    for v in out:
+        try:
+            values.to_coq(v)        # sets of the universe hold scalars only
+        except TypeError:
+            continue
+        k = base.expr_shared(v)
+        if k not in seen:
+            seen.add(k)
+            res.append(v)
+    return res
+
+
 def spells_digest(v):
     return any(len(s) > 20 for s in _strings_in(v, set()))
 
 
 def build_pool(rng, n_random, size):
-    pool = near_collisions()
+    pool = near_collisions() + identity_shapes()
     rnd = base.make_values(rng, n_random, 3, alias_frac=0.15)
     for v in rnd:
         pool.append(v)
@@ -299,7 +341,7 @@ def oracle_pool(ctx, pool, o, hasher=None, label="sha256"):
         try:
             hs.append(impl_hash(v, o, hasher)[0])
         except Exception as e:
-            ctx.fail({"kind": "raise", "opts": list(o), "value": repr(v), "error": repr(e)}, "DeepHash raised %r on %r" % (e, v))
+            ctx.fail({"kind": "raise", "opts": list(o), "value": base.expr_shared(v), "error": repr(e)}, "DeepHash raised %r on %r" % (e, v))
             hs.append(None)
     cs = [canon_mode(v, o) for v in pool]
     groups = {}
@@ -316,7 +358,7 @@ def oracle_pool(ctx, pool, o, hasher=None, label="sha256"):
             same_hash_pairs += 1
             ctx.nontrivial.add((label, o, i, j))
             if cs[i] != cs[j]:
-                case = {"kind": "collision", "opts": list(o), "value": repr(pool[i]), "other": repr(pool[j]), "hasher": label}
+                case = {"kind": "collision", "opts": list(o), "value": base.expr_shared(pool[i]), "other": base.expr_shared(pool[j]), "hasher": label}
                 ctx.fail(case, "equal hashes for values that differ as %s: %r vs %r" % (
                     {"set": "nested sets", "multiset": "nested multisets", "ordered": "ordered values"}[MODE_NAME[o]], pool[i], pool[j]))
     # pairs of the same type with different hashes are the other non-trivial half
@@ -372,8 +414,9 @@ def run(ctx):
     rng = ctx.rng
     sys.setrecursionlimit(10000)
     replay_witnesses(ctx)
-    pool = build_pool(rng, 45, 300)
-    ctx.note("pool", {"size": len(pool), "hand_written_near_collisions": len(near_collisions())})
+    pool = build_pool(rng, 45, 480)
+    ctx.note("pool", {"size": len(pool), "hand_written_near_collisions": len(near_collisions()),
+                      "identity_shapes(one object at several positions)": len(identity_shapes())})
     for v in pool[:3] + pool[-3:]:
         ctx.sample({"value": repr(v), "canonical(set mode)": canon_mode(v, SET_MODE)[:200]})
     for v in pool:
@@ -396,7 +439,7 @@ def run(ctx):
         oracle_pool(ctx, pool, o2, None, "sha256,private_kept")
     if ctx.thorough:
         for r in range(6):
-            pool2 = build_pool(random.Random(rng.randrange(1 << 30)), 80, 420)[len(near_collisions()) - 40:]
+            pool2 = build_pool(random.Random(rng.randrange(1 << 30)), 80, 620)[len(near_collisions()) + len(identity_shapes()) - 40:]
             base.corr_pattern(ctx, [v for v in pool2[:300] if not spells_digest(v)], MODES3, "c07_pattern_%d" % r)
             for o in MODES3:
                 oracle_pool(ctx, pool2, o, None, "sha256")
